@@ -246,7 +246,7 @@ const CONFUSION: [&[&str]; 6] = [
 ];
 
 /// Texts whose size or spelling lies outside the enumerated alphabets (see the label in `run`)
-fn beyond_small_scope() -> Vec<String> {
+pub fn beyond_small_scope() -> Vec<String> {
     let mut out: Vec<String> = vec![];
     // (a) long names with multi-byte characters so that every byte offset 28..72 falls inside a character
     let mut names: Vec<String> = vec![];
